@@ -40,6 +40,8 @@ use vnode::model::{H, h, hx};
 use vnode::node::{Node, NodeCfg};
 use vnode::treegen::{TreeCfg, TreeGen};
 
+mod light;
+
 // ---------------------------------------------------------------------------------------
 // hook H9 plumbing
 
@@ -129,6 +131,12 @@ struct Sess {
     built_in_window: HashSet<H>,
     params_desc: String,
     dead: bool,
+    /// light-client part: blocks delivered to N, own random stream, probe bookkeeping
+    delivered: HashSet<H>,
+    lrng: Rng,
+    last_deliver_reorged: bool,
+    light_probes: u64,
+    light_on: bool,
 }
 
 fn out_key(op: &OutPoint) -> (H, u32) {
@@ -285,6 +293,8 @@ impl Sess {
             self.dead = true;
             return false;
         }
+        self.delivered.insert(*x);
+        self.last_deliver_reorged = false;
         let new = self.n_tip();
         if new != old {
             r.count("n.tip_changes");
@@ -301,6 +311,7 @@ impl Sess {
                 };
                 r.count(&format!("n.reorg_depth.{}", d.min(8)));
                 self.ops.push(format!("deliver {}#{} -> REORG depth {} tip {}", hx(x), block.number(), d, hx(&new)));
+                self.last_deliver_reorged = true;
                 return true;
             }
         }
@@ -534,6 +545,16 @@ impl Sess {
         }
     }
 
+    /// Light-client part: drive the light-client protocol server of N at this point.
+    fn light_probe(&mut self, lt: &mut light::Light, at: &str, batch: u64) {
+        if !self.light_on || self.dead {
+            return;
+        }
+        self.light_probes += 1;
+        let c = light::Ctx { si: self.si, params: &self.params_desc, ops: &self.ops, at };
+        lt.probe(&self.n, &self.tg.rc, &self.delivered, &mut self.lrng, &c, batch);
+    }
+
     fn build_and_check(&mut self, r: &mut Report, why: &str) {
         if self.build(r, why) {
             self.check(r, why);
@@ -565,7 +586,7 @@ impl Sess {
     }
 
     /// H-i: a reorganisation lands between the builder's snapshot and the building of a block.
-    fn race_episode(&mut self, r: &mut Report) {
+    fn race_episode(&mut self, r: &mut Report, lt: &mut light::Light) {
         if !self.sync_tips(r) {
             return;
         }
@@ -678,6 +699,9 @@ impl Sess {
             self.built_in_window.extend(in_window);
         }
         // the competing branch is the main chain now
+        if self.n_tip() == *b.last().unwrap() {
+            self.light_probe(lt, "race: on branch B", 8);
+        }
         if self.rng.bool() {
             self.build_and_check(r, "race: on branch B");
         }
@@ -693,11 +717,13 @@ impl Sess {
             return;
         }
         r.count("race.reorged_back");
+        self.light_probe(lt, "race: back on branch A", 8);
         self.build_and_check(r, "race: back on branch A");
     }
 }
 
-fn run_session(si: u64, rng: &mut Rng, r: &mut Report, deadline: Instant, steps: u64, with_races: bool) {
+#[allow(clippy::too_many_arguments)]
+fn run_session(si: u64, rng: &mut Rng, r: &mut Report, lt: &mut light::Light, light_on: bool, deadline: Instant, steps: u64, with_races: bool) {
     let mut params = ChainParams::default();
     match si % 3 {
         0 => {
@@ -735,6 +761,11 @@ fn run_session(si: u64, rng: &mut Rng, r: &mut Report, deadline: Instant, steps:
         tg,
         n,
         rng: rng.fork(11),
+        lrng: rng.fork(12),
+        delivered: HashSet::new(),
+        last_deliver_reorged: false,
+        light_probes: 0,
+        light_on,
         salt: si << 32,
         ops: vec![],
         judged: HashSet::new(),
@@ -757,7 +788,7 @@ fn run_session(si: u64, rng: &mut Rng, r: &mut Report, deadline: Instant, steps:
         let k = s.rng.below(100);
         if with_races && k < 7 && tip_n >= 4 && races < 3 {
             races += 1;
-            s.race_episode(r);
+            s.race_episode(r, lt);
             continue;
         }
         let parent = if k < 27 && tip_n >= 1 {
@@ -772,6 +803,9 @@ fn run_session(si: u64, rng: &mut Rng, r: &mut Report, deadline: Instant, steps:
             break;
         }
         r.count("gen.blocks");
+        if s.last_deliver_reorged && s.light_probes < 10 && s.lrng.chance(6, 10) {
+            s.light_probe(lt, "after a reorganisation", 8);
+        }
         // run the builder after some operations only, so that it also meets backlogs and
         // backlogs that span a reorganisation
         if s.rng.chance(400, 1000) || step + 1 == steps {
@@ -780,6 +814,7 @@ fn run_session(si: u64, rng: &mut Rng, r: &mut Report, deadline: Instant, steps:
     }
     if !s.dead {
         s.build_and_check(r, "end of session");
+        s.light_probe(lt, "end of session", 12);
     }
     for (k, v) in s.tg.stats.iter() {
         r.count_n(&format!("treegen.{k}"), *v);
@@ -801,6 +836,14 @@ fn main() {
     if !installed {
         r.inconclusive("harness: could not install the block-filter hook callback");
     }
+    // light-client part (light.rs): own report, own shard file; `light=0` switches it off
+    let light_on = args.get_u64("light", 1) != 0;
+    let mut lt = light::Light::new(Report::new(
+        "C19",
+        "exploration",
+        &args,
+        "light-client server: on the node of the filter sessions, after reorganisations (blocks of abandoned branches in the store), the real LightClientProtocol handlers are driven through `received` with GetLastState / GetLastStateProof / GetBlocksProof / GetTransactionsProof (last_hash = tip / older main-chain block / genesis / abandoned-branch block / unknown; items on the main chain below and above last, on abandoned branches only, unknown, duplicated; limits and invalid sampling parameters) and malformed bytes; every reply is judged against the reference model: last_header is the requested main-chain block or the tip (tip-state form, nothing else carried), its chain root equals the own MMR root over the main chain below it and its extension commits to it, proved headers / transactions are main-chain items below last and exactly the provable requested ones, the others are listed as missing, the MMR proof verifies against the model root for exactly the served positions (third-party verifier over the harness' digest and merge), transaction Merkle proofs are evaluated by the harness, GetLastStateProof serves exactly the blocks the sampling rule (linear scans over model total difficulties) selects; handlers never panic, well-formed requests are answered, malformed ones are not answered with wrong content; distinct = (message kind, last_hash class, item classes / sampling shape, reply form)",
+    ));
     let mut rng = Rng::new(args.seed ^ 0xF117E5);
     let budget = args.get_u64("budget_s", args.tier.pick(40, 480));
     let sessions = args.get_u64("sessions", args.tier.pick(40, 2000));
@@ -814,7 +857,7 @@ fn main() {
             break;
         }
         let mut srng = rng.fork(si);
-        run_session(si, &mut srng, &mut r, deadline, steps, with_races);
+        run_session(si, &mut srng, &mut r, &mut lt, light_on, deadline, steps, with_races);
         for p in hooks::take_panics() {
             let file = p.location.rsplit('/').next().unwrap_or("").split(':').next().unwrap_or("").to_string();
             r.violation(
@@ -853,6 +896,7 @@ fn main() {
         .map(std::path::PathBuf::from)
         .unwrap_or_else(|| dir.join("C19.part-filter.json"));
     let code = r.finish(Some(&path));
+    let lcode = if light_on { finish_light(&mut lt.r, &args, &path) } else { 0 };
     // shard files are silent: print a summary for humans
     let known = vbase::KnownFindings::load();
     for v in &r.violations {
@@ -867,5 +911,62 @@ fn main() {
         args.tier.as_str(), args.seed, r.evaluations, r.distinct_count(), r.counter("blocks_checked"), r.counter("n.reorgs"),
         r.counter("build.fork_recovery"), r.counter("race.reorg_landed_in_window"), code, path.display()
     );
-    vnode::node::exit(code)
+    vnode::node::exit(code.max(lcode))
+}
+
+/// Minimums, assumptions and shard file of the light-client part.
+fn finish_light(lr: &mut Report, args: &Args, filter_shard: &std::path::Path) -> i32 {
+    let q = args.tier == vbase::Tier::Quick;
+    let m = |a: u64, b: u64| if q { a } else { b };
+    lr.require("light.probes", m(60, 600));
+    lr.require("light.probes_with_abandoned_blocks", m(50, 500));
+    lr.require("light.req.GetLastState", m(60, 600));
+    lr.require("light.req.GetLastStateProof", m(200, 2000));
+    lr.require("light.req.GetBlocksProof", m(150, 1500));
+    lr.require("light.req.GetTransactionsProof", m(150, 1500));
+    for cl in ["tip", "main_old", "abandoned", "unknown"] {
+        lr.require(&format!("light.last_class.{cl}"), m(60, 600));
+        lr.require(&format!("light.req.GetBlocksProof.last.{cl}"), m(15, 150));
+        lr.require(&format!("light.req.GetTransactionsProof.last.{cl}"), m(15, 150));
+        lr.require(&format!("light.req.GetLastStateProof.last.{cl}"), m(20, 200));
+    }
+    lr.require("light.last_class.genesis", m(10, 100));
+    lr.require("light.replies_verified", m(400, 4000));
+    lr.require("light.replies_verified.last_state_proof", m(60, 600));
+    lr.require("light.replies_verified.blocks_proof", m(80, 800));
+    lr.require("light.replies_verified.txs_proof", m(80, 800));
+    lr.require("light.tip_state_replies", m(100, 1000));
+    lr.require("light.proofs_verified", m(150, 1500));
+    lr.require("light.tx_merkle_proofs_verified", m(60, 600));
+    lr.require("light.verifiable_headers_checked", m(800, 8000));
+    for cl in ["main_below_last", "abandoned", "unknown"] {
+        lr.require(&format!("light.items.block.{cl}"), m(80, 800));
+        lr.require(&format!("light.items.tx.{cl}"), m(40, 400));
+    }
+    lr.require("light.items.block.main_at_or_above_last", m(5, 50));
+    lr.require("light.lsp.expected.reorg_blocks", m(20, 200));
+    lr.require("light.lsp.expected.sampled_blocks", m(20, 200));
+    lr.require("light.lsp.expected.last_n_blocks", m(100, 1000));
+    lr.require("light.req.malformed", m(15, 150));
+    lr.assume("the main chain is taken from the node's tip hash and replayed from the harness's own copies of the blocks (RefChain); tip selection itself is C01's subject");
+    lr.assume("chain roots, MMR sizes and leaf positions come from vnode::model::{Mmr, Digest}; membership proofs are evaluated by ckb-merkle-mountain-range's MerkleProof::verify (third-party) instantiated with the harness' digest type and merge function");
+    lr.assume("ckb-types' molecule readers decode the replies; header hash = blake2b_256(header), transaction hash = blake2b_256(raw transaction), both recomputed from the served bytes");
+    lr.assume("a request with last_hash on the main chain that asks for an item at or above last (not provable against last), or whose start_number is above last, may be refused, dropped or answered correctly; only panics and wrong content are judged for it");
+    let path = filter_shard.parent().map(|d| d.join("C19.part-light.json")).unwrap_or_else(|| std::path::PathBuf::from("C19.part-light.json"));
+    let code = lr.finish(Some(&path));
+    let known = vbase::KnownFindings::load();
+    for v in &lr.violations {
+        let tag = if known.is_known("C19", &v.signature) { "KNOWN-FINDING(shard):" } else { "VIOLATION(shard)" };
+        println!("{tag} property=C19 signature={} occurrences={}\n  detail: {}", v.signature, lr.counter(&format!("violation::{}", v.signature)), v.detail);
+    }
+    for i in &lr.inconclusive {
+        println!("INCONCLUSIVE(shard) property=C19 reason={i}");
+    }
+    println!(
+        "[C19/light] {} seed={} evaluations={} distinct={} probes={} requests(lsp/blocks/txs)={}/{}/{} replies_verified={} proofs_verified={} exit={} shard={}",
+        args.tier.as_str(), args.seed, lr.evaluations, lr.distinct_count(), lr.counter("light.probes"),
+        lr.counter("light.req.GetLastStateProof"), lr.counter("light.req.GetBlocksProof"), lr.counter("light.req.GetTransactionsProof"),
+        lr.counter("light.replies_verified"), lr.counter("light.proofs_verified"), code, path.display()
+    );
+    code
 }
